@@ -1,4 +1,5 @@
-\* quick: siblings newer than / in the same second as the original, two sites, 5 Accept-Encoding values
+\* quick: siblings newer than / in the same second as the original, two sites, 5 Accept-Encoding values.
+\* (Terminates is checked by StaticCondLive.cfg in the thorough tier: liveness triples the run time.)
 CONSTANT Repaired412 = TRUE
 CONSTANT RepairedRange = TRUE
 CONSTANT TagPerCoding = TRUE
@@ -16,6 +17,7 @@ INVARIANT TypeOK
 INVARIANT ValidatorPerRepresentation
 INVARIANT ConditionalConsistent
 INVARIANT DateConsistent
+INVARIANT DateRangeSafe
 INVARIANT PreconditionConsistent
 INVARIANT RangeOfSelectedRepresentation
 INVARIANT IfRangeSafe
@@ -26,5 +28,4 @@ INVARIANT TypeAndCoding
 INVARIANT NoBodyWhenNotAllowed
 INVARIANT FirstIsFull
 INVARIANT Emit
-PROPERTY Terminates
 CHECK_DEADLOCK FALSE
